@@ -1047,7 +1047,8 @@ class Model:
                 GraphBuilder(to_float32=to_float32).add(*nodes_and_vars).build_model()
             )
             nodes_and_vars = [*model.nodes.values(), *model.vars.values()]
-            model.pop_nodes_and_vars()
+            # the complete graph, including the model nodes and their wiring, moves on
+            model._release_nodes_and_vars()
 
         nodes = [nv for nv in nodes_and_vars if isinstance(nv, Node)]
         nodes = list(dict.fromkeys(nodes).keys())
@@ -1263,14 +1264,23 @@ class Model:
         All nodes and variables are unfrozen and their reference to this model
         is removed. This model becomes invalid and cannot be used anymore.
         """
+        nodes, _vars = self._release_nodes_and_vars()
+
+        self._detach_model_inputs(nodes)
+        nodes = {nm: nd for nm, nd in nodes.items() if not nm.startswith("_model")}
+
+        return nodes, _vars
+
+    def _release_nodes_and_vars(self) -> tuple[dict[str, Node], dict[str, Var]]:
+        """
+        Unfreezes all nodes and variables, including the model's own ``_model_*`` nodes
+        with their wiring, and empties this model.
+        """
         nodes = self._nodes.copy()
         _vars = self._vars.copy()
 
         for node in nodes.values():
             node._unset_model()
-
-        self._detach_model_inputs(nodes)
-        nodes = {nm: nd for nm, nd in nodes.items() if not nm.startswith("_model")}
 
         # clear the model
         self._nodes.clear()
